@@ -331,6 +331,25 @@ pub mod crossbeam_channel {
     #[derive(Debug, Clone, Copy, PartialEq, Eq)]
     pub struct RecvError;
 
+    pub enum TrySendError<T> {
+        Full(T),
+        Disconnected(T),
+    }
+    #[derive(Debug, Clone, Copy, PartialEq, Eq)]
+    pub enum TryRecvError {
+        Empty,
+        Disconnected,
+    }
+
+    impl<T> fmt::Debug for TrySendError<T> {
+        fn fmt(&self, f: &mut fmt::Formatter<'_>) -> fmt::Result {
+            match self {
+                Self::Full(_) => f.write_str("Full(..)"),
+                Self::Disconnected(_) => f.write_str("Disconnected(..)"),
+            }
+        }
+    }
+
     impl<T> fmt::Debug for SendError<T> {
         fn fmt(&self, f: &mut fmt::Formatter<'_>) -> fmt::Result {
             f.write_str("SendError(..)")
@@ -386,6 +405,26 @@ pub mod crossbeam_channel {
             }
         }
 
+        pub fn try_send(&self, v: T) -> Result<(), TrySendError<T>> {
+            let c = &self.0;
+            let mut st = c.st.lock().unwrap();
+            if st.receivers == 0 {
+                drop(st);
+                log("send_disconnected", c.id, logval(&v));
+                return Err(TrySendError::Disconnected(v));
+            }
+            if st.q.len() < st.cap.max(1) {
+                log("send", c.id, logval(&v));
+                st.q.push_back(v);
+                drop(st);
+                c.not_empty.notify_one();
+                return Ok(());
+            }
+            drop(st);
+            log("try_send_full", c.id, logval(&v));
+            Err(TrySendError::Full(v))
+        }
+
         pub fn len(&self) -> usize {
             self.0.st.lock().unwrap().q.len()
         }
@@ -393,9 +432,47 @@ pub mod crossbeam_channel {
         pub fn is_empty(&self) -> bool {
             self.len() == 0
         }
+
+        pub fn is_full(&self) -> bool {
+            let st = self.0.st.lock().unwrap();
+            st.q.len() >= st.cap.max(1)
+        }
+
+        pub fn capacity(&self) -> Option<usize> {
+            Some(self.0.st.lock().unwrap().cap)
+        }
     }
 
     impl<T: 'static> Receiver<T> {
+        pub fn try_recv(&self) -> Result<T, TryRecvError> {
+            let c = &self.0;
+            let mut st = c.st.lock().unwrap();
+            if let Some(v) = st.q.pop_front() {
+                log("recv", c.id, logval(&v));
+                drop(st);
+                c.not_full.notify_one();
+                return Ok(v);
+            }
+            let disconnected = st.senders == 0;
+            drop(st);
+            if disconnected {
+                log("recv_disconnected", c.id, 0);
+                Err(TryRecvError::Disconnected)
+            } else {
+                log("try_recv_empty", c.id, 0);
+                Err(TryRecvError::Empty)
+            }
+        }
+
+        pub fn is_full(&self) -> bool {
+            let st = self.0.st.lock().unwrap();
+            st.q.len() >= st.cap.max(1)
+        }
+
+        pub fn capacity(&self) -> Option<usize> {
+            Some(self.0.st.lock().unwrap().cap)
+        }
+
         pub fn recv(&self) -> Result<T, RecvError> {
             let c = &self.0;
             let mut st = c.st.lock().unwrap();
